@@ -204,6 +204,11 @@ class Translator:
                 d = dotted(st.value.func) or ""
                 if d in ("print", "warnings.warn"):
                     return None
+                # logging: `logging.info(..)`, `logger.debug(..)` / `log.warning(..)` / `self.logger.info(..)` on a logger
+                # object - diagnostics only, no effect on any value the interpretation follows
+                parts_ = d.split(".")
+                if len(parts_) >= 2 and parts_[-1] in ("debug", "info", "warning", "warn", "error", "exception", "critical", "log") and (parts_[0] == "logging" or parts_[-2].lower() in ("logger", "log", "_logger", "_log", "logging")):
+                    return None
                 # list.append on python-level lists
                 f = st.value.func
                 if isinstance(f, ast.Attribute) and f.attr in ("append", "extend") and isinstance(f.value, ast.Name):
@@ -234,8 +239,8 @@ class Translator:
                 cur[...] = res  # numpy semantics: `a += b` changes the array in place (every alias / view sees it)
                 self.assign(st.target, cur, env, mod, depth)
                 return None
-            if self.hooks.get("numpy_inplace") and isinstance(cur, list) and isinstance(st.op, ast.Add) and isinstance(v, (list, tuple)) and not isinstance(cur, (PySet,)):
-                cur.extend(list(v))  # list += ... extends in place
+            if type(cur) is list and isinstance(st.op, ast.Add) and isinstance(v, (list, tuple)) and not isinstance(v, np.ndarray):
+                cur.extend(list(v))  # python semantics: `lst += seq` extends the list object, every alias sees it
                 self.assign(st.target, cur, env, mod, depth)
                 return None
             self.assign(st.target, res, env, mod, depth)
@@ -333,15 +338,95 @@ class Translator:
                 raise Raised(ast.unparse(st))
             raise Unmodelled("kernel path raises: %s" % ast.unparse(st))
         if isinstance(st, ast.With):
+            if self.hooks.get("enter_contextmanagers") and len(st.items) == 1 and isinstance(st.items[0].context_expr, ast.Call):
+                r_ = self._with_contextmanager(st, env, mod, depth)
+                if r_ is not NotImplemented:
+                    return r_
             # `with tf.name_scope(...)`-like blocks: execute the body
             return self.exec_body(st.body, env, mod, depth)
         raise Unmodelled("statement kind %s not modelled: %s" % (type(st).__name__, ast.unparse(st)[:80]))
+
+    def _with_contextmanager(self, st, env, mod, depth):
+        """`with self.cm(args):` where cm is a repo function decorated with contextmanager and shaped
+        `<setup>; try: yield [v] finally: <cleanup>` (or `<setup>; yield [v]; <cleanup>`): setup, body, cleanup"""
+        call = st.items[0].context_expr
+        f = call.func
+        self_obj = None
+        try:
+            if isinstance(f, ast.Attribute):
+                recv = self.eval(f.value, env, mod, depth)
+                if not (isinstance(recv, SelfObj) and recv.cls is not None):
+                    return NotImplemented
+                fn = recv.cls.lookup(f.attr)
+                self_obj = recv
+            else:
+                fn = self.eval(f, env, mod, depth)
+        except Unmodelled:
+            return NotImplemented
+        if not isinstance(fn, Fn) or fn.key in self.hooks:
+            return NotImplemented
+        if not any("contextmanager" in ast.unparse(d_) for d_ in getattr(fn.node, "decorator_list", [])):
+            return NotImplemented
+        args = [self.eval(a_, env, mod, depth) for a_ in call.args]
+        kwargs = {k_.arg: self.eval(k_.value, env, mod, depth) for k_ in call.keywords if k_.arg}
+        a = fn.node.args
+        pos = [x.arg for x in a.posonlyargs + a.args]
+        vals = ([self_obj] if self_obj is not None else []) + args
+        defaults = fn.defaults()
+        env2 = {}
+        for i_, p_ in enumerate(pos):
+            if i_ < len(vals):
+                env2[p_] = vals[i_]
+            elif p_ in kwargs:
+                env2[p_] = kwargs[p_]
+            elif p_ in defaults:
+                env2[p_] = self.eval(defaults[p_], {}, fn.mod, depth)
+            else:
+                raise Unmodelled("missing argument %s in context manager %s" % (p_, fn.key))
+        env2["__fn__"] = fn
+        state = {"ret": None}
+
+        def is_yield(x):
+            return isinstance(x, ast.Expr) and isinstance(x.value, ast.Yield)
+
+        def body_at(yst):
+            if st.items[0].optional_vars is not None:
+                v_ = self.eval(yst.value.value, env2, fn.mod, depth + 1) if yst.value.value is not None else None
+                self.assign(st.items[0].optional_vars, v_, env, mod, depth)
+            state["ret"] = self.exec_body(st.body, env, mod, depth)
+
+        def run(stmts):
+            for x in stmts:
+                if is_yield(x):
+                    body_at(x)
+                elif isinstance(x, ast.Try) and any(is_yield(y) for y in x.body) and not x.handlers:
+                    try:
+                        run(x.body)
+                    finally:
+                        self.exec_body(x.finalbody, env2, fn.mod, depth + 1)
+                elif any(isinstance(y, (ast.Yield, ast.YieldFrom)) for y in ast.walk(x)):
+                    raise Unmodelled("context manager %s: yield inside %s" % (fn.key, type(x).__name__))
+                else:
+                    self.exec_stmt(x, env2, fn.mod, depth + 1)
+
+        run(fn.node.body)
+        return state["ret"]
 
     def assign(self, t, v, env, mod, depth):
         if isinstance(t, ast.Name):
             env[t.id] = v
         elif isinstance(t, (ast.Tuple, ast.List)):
             vals = list(v) if isinstance(v, (list, tuple)) else None
+            stars = [i_ for i_, e_ in enumerate(t.elts) if isinstance(e_, ast.Starred)]
+            if vals is not None and len(stars) == 1 and len(vals) >= len(t.elts) - 1:
+                k_ = stars[0]
+                tail = len(t.elts) - 1 - k_
+                for e, x in zip(t.elts[:k_], vals[:k_]):
+                    self.assign(e, x, env, mod, depth)
+                self.assign(t.elts[k_].value, vals[k_:len(vals) - tail], env, mod, depth)
+                for e, x in zip(t.elts[k_ + 1:], vals[len(vals) - tail:]):
+                    self.assign(e, x, env, mod, depth)
+                return
             if vals is None or len(vals) != len(t.elts):
                 raise Unmodelled("cannot unpack %s" % ast.unparse(t))
             for e, x in zip(t.elts, vals):
@@ -425,6 +510,7 @@ class Translator:
         if isinstance(n, ast.Compare):
             left = self.eval(n.left, env, mod, depth)
             res = True
+            pending = []
             for op, c in zip(n.ops, n.comparators):
                 right = self.eval(c, env, mod, depth)
                 r = self.compare(op, left, right)
@@ -432,9 +518,15 @@ class Translator:
                     return False
                 if r is not True:
                     if len(n.ops) > 1:
-                        raise Unmodelled("chained symbolic comparison")
-                    return r
+                        # a < b < c is (a < b) and (b < c): kept as a conjunction of scalar relations
+                        if not (is_sym(r) or isinstance(r, (bool, sp.logic.boolalg.Boolean))):
+                            raise Unmodelled("chained comparison of non-scalar symbolic values")
+                        pending.append(r)
+                    else:
+                        return r
                 left = right
+            if pending:
+                return sp.And(*pending) if len(pending) > 1 else pending[0]
             return res
         if isinstance(n, ast.IfExp):
             c = self.truth(self.eval(n.test, env, mod, depth), n.test)
@@ -722,6 +814,23 @@ class Translator:
             callee = self.eval(f, env, mod, depth)
         return self.apply(callee, args, kwargs, n, depth)
 
+    @staticmethod
+    def bound_args(fn, args, kwargs, drop_receiver=True):
+        """name -> value table of a hooked call, however the call site spelt its arguments (for hooks: positional,
+        keyword or mixed).  `fn` is the repo function; a leading receiver object (SelfObj) in `args` is dropped"""
+        a = fn.node.args
+        names = [x.arg for x in a.posonlyargs + a.args]
+        vals = list(args)
+        if names and names[0] in ("self", "cls"):
+            names = names[1:]
+            if drop_receiver and vals and isinstance(vals[0], SelfObj) and len(vals) > len(names) - sum(1 for nm_ in names if nm_ in kwargs):
+                vals = vals[1:]
+            elif drop_receiver and vals and isinstance(vals[0], SelfObj) and vals[0].cls is not None and fn.cls is not None and (vals[0].cls is fn.cls or fn.cls in getattr(vals[0].cls, "mro", [])):
+                vals = vals[1:]
+        out = dict(zip(names, vals))
+        out.update(kwargs)
+        return out
+
     def apply(self, callee, args, kwargs, n, depth):
         if isinstance(callee, Fn):
             if callee.key in self.hooks:
@@ -730,6 +839,8 @@ class Translator:
         if isinstance(callee, BoundMethod):
             if callee.fn.key in self.hooks:
                 return self.hooks[callee.fn.key](self, [callee.self_obj] + list(args), kwargs, n)
+            if any(isinstance(d_, ast.Name) and d_.id == "staticmethod" for d_ in getattr(callee.fn.node, "decorator_list", [])):
+                return self.call_fn(callee.fn, args, kwargs, depth=depth + 1)   # self.f(...) of a @staticmethod: no receiver
             return self.call_fn(callee.fn, args, kwargs, self_obj=callee.self_obj, depth=depth + 1)
         if isinstance(callee, Closure):
             node = callee.node
@@ -786,6 +897,9 @@ class Translator:
         raise Unmodelled("call of %r" % (callee,))
 
     def method_call(self, obj, name, args, kwargs, n, mod, depth):
+        if isinstance(obj, Opaque) and obj.name == "logger":
+            # a logging.Logger: isEnabledFor() is answered "no" (the guarded block only logs), everything else is a no-op
+            return False if name == "isEnabledFor" else None
         if isinstance(obj, np.ndarray) and name == "copy" and not args:
             return obj.copy()
         if isinstance(obj, np.ndarray) and name == "tolist" and not args:
@@ -930,6 +1044,8 @@ class Translator:
         if name == "len":
             if isinstance(a0, (list, tuple, dict, str, range)):
                 return sp.Integer(len(a0))
+            if isinstance(a0, np.ndarray) and a0.ndim >= 1:
+                return sp.Integer(a0.shape[0])   # the component model knows its leading dimension
             raise Unmodelled("len() of symbolic value")
         if name == "range":
             return range(*[_pyint(x) for x in args])
@@ -995,10 +1111,19 @@ class Translator:
             if isinstance(a0, (list, tuple, dict, range, str)):
                 return PyIter(a0)
             raise Unmodelled("iter() of a non-constant iterable")
-        if name == "next" and len(args) == 1 and isinstance(a0, PyIter):
+        if name == "next" and len(args) in (1, 2) and isinstance(a0, PyIter):
             if not a0:
+                if len(args) == 2:
+                    return args[1]
                 raise Unmodelled("next() on an exhausted iterator")
             return a0.pop(0)
+        if name == "next" and len(args) in (1, 2) and isinstance(a0, list) and n is not None and n.args and isinstance(n.args[0], ast.GeneratorExp):
+            # next(<generator expression>[, default]): the generator was evaluated eagerly into a list
+            if a0:
+                return a0[0]
+            if len(args) == 2:
+                return args[1]
+            raise Unmodelled("next() on an empty generator")
         if name == "getattr" and len(args) >= 2 and isinstance(args[1], str):
             if isinstance(a0, SelfObj):
                 try:
@@ -1030,6 +1155,40 @@ class Translator:
             return [(sp.Integer(i), x) for i, x in enumerate(list(a0), _pyint(start))]
         if name == "reversed":
             return list(reversed(list(a0)))
+        if name in ("sorted", "min", "max") and (kwargs.get("key") is not None or "reverse" in kwargs or "default" in kwargs):
+            items = list(a0) if (name == "sorted" or len(args) == 1) else list(args)
+            keyf = kwargs.get("key")
+            rev = kwargs.get("reverse", False)
+            if not isinstance(rev, (bool, int)) and not (is_sym(rev) and rev.is_number) and rev not in (sp.true, sp.false):
+                raise Unmodelled("sorted(reverse=<symbolic>)")
+            rev = bool(rev)
+
+            def plain(k_):
+                if isinstance(k_, (tuple, list)):
+                    return tuple(plain(x) for x in k_)
+                if isinstance(k_, (str, bool, int, float)):
+                    return k_
+                if is_sym(k_) and k_.is_number and k_.is_real:
+                    return sp.Rational(k_) if k_.is_Rational else float(k_)
+                raise Unmodelled("sort key %r is not a concrete value" % (k_,))
+
+            if keyf is None:
+                keys = [plain(x) for x in items]
+            else:
+                keys = [plain(keyf(x) if callable(keyf) and not isinstance(keyf, (Fn, BoundMethod, Closure, PyFunc, Cls, Opaque, SelfObj)) else self.apply(keyf, [x], {}, n, 0)) for x in items]
+            order_ = sorted(range(len(items)), key=lambda i_: keys[i_], reverse=rev)   # stable, like Python's
+            if name == "sorted":
+                return [items[i_] for i_ in order_]
+            if not items:
+                if "default" in kwargs:
+                    return kwargs["default"]
+                raise Unmodelled("%s() of an empty sequence" % name)
+            best = items[0]
+            bk = keys[0]
+            for it_, k_ in zip(items[1:], keys[1:]):
+                if (k_ < bk) if name == "min" else (k_ > bk):
+                    best, bk = it_, k_
+            return best
         if name == "sorted":
             return sorted(list(a0))
         if name in ("min", "max"):
@@ -1067,6 +1226,25 @@ class Translator:
         raise Unmodelled("builtin %s" % name)
 
     def numeric_call(self, d, last, args, kwargs, n):
+        if d in ("logging.getLogger", "getLogger"):
+            return Opaque("logger")
+        if last in ("less", "greater", "less_equal", "greater_equal", "equal", "not_equal") and len(args) == 2 and d.split(".")[0] in ("tf", "np", "tensorflow", "numpy"):
+            # functional spelling of a comparison: tf.less(a, b) is a < b
+            op_ = {"less": ast.Lt(), "greater": ast.Gt(), "less_equal": ast.LtE(), "greater_equal": ast.GtE(), "equal": ast.Eq(), "not_equal": ast.NotEq()}[last]
+            return self.compare(op_, args[0], args[1])
+        if d in ("copy.deepcopy", "deepcopy", "copy.copy") and len(args) == 1 and isinstance(args[0], (dict, list, tuple)) and not isinstance(args[0], np.ndarray):
+            def _cp(x, deep):
+                if isinstance(x, dict) and type(x) is dict:
+                    return {k_: (_cp(v_, deep) if deep else v_) for k_, v_ in x.items()}
+                if type(x) is list:
+                    return [(_cp(v_, deep) if deep else v_) for v_ in x]
+                if type(x) is tuple:
+                    return tuple((_cp(v_, deep) if deep else v_) for v_ in x)
+                return x   # leaves (symbols, tokens, arrays of the component model) are values
+            return _cp(args[0], d != "copy.copy")
+        if last == "shape" and d.split(".")[0] in ("tf", "tensorflow") and len(args) == 1 and isinstance(args[0], (np.ndarray, TensorList)):
+            # tf.shape(x) of a component array / of a batch of event tokens: same as x.shape
+            return tuple(sp.Integer(k) for k in args[0].shape) if isinstance(args[0], np.ndarray) else (sp.Integer(len(args[0])),)
         a0 = args[0] if args else None
         if d.split(".")[0] == "itertools":
             import itertools as _it
@@ -1222,6 +1400,11 @@ class Translator:
         if last in ("reduce_prod", "prod") and is_arr(a0):
             k = ax(None)
             r = np.prod(a0, axis=k)
+            return r[()] if isinstance(r, np.ndarray) and r.shape == () else r
+        if last in ("reduce_mean", "mean") and is_arr(a0) and a0.size:
+            k = ax(None)
+            cnt = a0.size if k is None else a0.shape[k]
+            r = np.sum(a0, axis=k) / sp.Integer(cnt)
             return r[()] if isinstance(r, np.ndarray) and r.shape == () else r
         if last == "expand_dims":
             return np.expand_dims(as_arr(a0), ax(-1))
